@@ -273,3 +273,56 @@ def ref_avp(code, flags, vendor, data: bytes) -> bytes:
 
 def dict_rows():
     return tables.dictionary_rows()
+
+
+# ---------------------------------------------------------------- independent RFC parser (oracle side)
+def ref_parse_avps(data: bytes):
+    """Parse a concatenation of well-formed AVPs by the RFC layout; returns
+    [(code, flags, vendor, payload)] or raises ValueError."""
+    out = []
+    i = 0
+    n = len(data)
+    while i < n:
+        if n - i < 8:
+            raise ValueError("truncated header")
+        code = int.from_bytes(data[i:i + 4], "big")
+        flags = data[i + 4]
+        ln = int.from_bytes(data[i + 5:i + 8], "big")
+        hdr = 8
+        vendor = 0
+        if flags & 0x80:
+            if n - i < 12:
+                raise ValueError("truncated vendor")
+            vendor = int.from_bytes(data[i + 8:i + 12], "big")
+            hdr = 12
+        if ln < hdr:
+            raise ValueError("length below header")
+        end = i + ln
+        pad = -ln % 4
+        if end + pad > n:
+            raise ValueError("truncated payload")
+        out.append((code, flags, vendor, data[i + hdr:end]))
+        i = end + pad
+    return out
+
+
+def is_grouped(code, vendor):
+    e = A.get_avp_dictionary_entry(code, vendor)
+    return e is not None and issubclass(e["type"], A.AvpGrouped)
+
+
+def ref_find(avps, path):
+    """Declarative search: AVPs located at `path` (non-final elements must be grouped
+    to be descended into; a non-grouped match on a non-final element is itself returned,
+    as the library documents), in wire order."""
+    if not path:
+        return []
+    (code, vendor), rest = path[0], path[1:]
+    found = []
+    for a in avps:
+        if a[0] == code and a[2] == vendor:
+            if not rest or not is_grouped(code, vendor):
+                found.append(a)
+            else:
+                found += ref_find(ref_parse_avps(a[3]), rest)
+    return found
